@@ -139,6 +139,17 @@ func TestVerifC11Fresh(t *testing.T) {
 			}
 			n := string(b)
 			opts.SNI = &n
+		case variant == 4:
+			// the documented build - edit - handshake history: the name is changed with SetSNI after the hello has been
+			// built for inspection; what both sides report is the name that finally went out
+			vname = "setsni-after-build"
+			later := vfGenDNSName(rt, "latername")
+			opts.Prep = func(p *vfPrepared) error {
+				if p.Src.Kind != "golang" {
+					p.UC.SetSNI(later)
+				}
+				return nil
+			}
 		}
 		var res *vfGridResult
 		if vname == "remove-sni" {
